@@ -140,9 +140,9 @@ void harness (void)
           s->def = rc == 0 ? d : -1;
         }
       else if (act <= 10)
-        { /* settings: 8 next lookahead level (1 -> 2 -> 0 -> 1), 9 all parses, 10 cost on + recovery off */
+        { /* settings: 8 next lookahead level (1 -> 0 -> 2 -> 1), 9 all parses, 10 cost on + recovery off */
           sx_assume (s->g != NULL);
-          if (act == 8) { s->la = (s->la + 1) % 3; yaep_set_lookahead_level (s->g, s->la); }
+          if (act == 8) { s->la = (s->la + 2) % 3; yaep_set_lookahead_level (s->g, s->la); }
           else if (act == 9) { s->one = !s->one; yaep_set_one_parse_flag (s->g, s->one); }
           else { s->cost = !s->cost; s->rec = !s->rec; yaep_set_cost_flag (s->g, s->cost); yaep_set_error_recovery_flag (s->g, s->rec); }
         }
